@@ -193,13 +193,12 @@ class FsCase:
             for (_, c) in lay:
                 if c is not None:
                     out.add(bytes(c))
-        for o in self.ops:
-            if o[0] == "W":
-                out.add(bytes(o[3]))
+        out |= self.payloads()
         return out
 
     def payloads(self):
-        return set(bytes(o[3]) for o in self.ops if o[0] == "W")
+        """every byte string handed to the byte-level write (directly or through an archive writer)"""
+        return set(bytes(o[3]) for o in self.ops if o[0] == "W") | set(bytes(o[-1]) for o in self.ops if o[0] in ("WA", "WT"))
 
 
 _counter = [0]
@@ -243,6 +242,35 @@ class Codec:
 CODEC = Codec()
 
 
+class Samples:
+    """valid archive files built by the library's own writers (harness kind `fsmk`), cached"""
+
+    def __init__(self):
+        self.items = None
+
+    def get(self):
+        if self.items is None:
+            specs = []
+            for e in ("be", "le"):
+                for v in (0, 1, 2):
+                    specs.append(("bin", e, None, "fsmk bin %s %d" % (e, v)))
+            for f in ("sjis", "utf16"):
+                for e in ("be", "le"):
+                    for v in (0, 1):
+                        specs.append(("text", e, f, "fsmk text %s %s %d" % (f, e, v)))
+            specs.append(("fe9arc", None, None, "fsmk fe9arc 1"))
+            outs = common.run_tool(common.harness_bin(False), [x[3] for x in specs], common.WORK, "fsmk", shards=1)
+            self.items = []
+            for (kind, e, f, _), o in zip(specs, outs):
+                parts = o.split()
+                if len(parts) == 2:
+                    self.items.append((kind, e, f, bytes.fromhex(parts[0]), bytes.fromhex(parts[1])))
+        return self.items
+
+
+SAMPLES = Samples()
+
+
 def render_case(c, base, codec=CODEC):
     g = GAMES[c.game]
     toks = ["fs", base, str(c.game), str(c.lang), str(len(c.layers))]
@@ -274,6 +302,12 @@ def render_case(c, base, codec=CODEC):
             toks += ["W", str(o[1]), L(o[2]), B(o[3])]
         elif o[0] == "L":
             toks += ["L", str(o[1]), L(o[2]), o[3]]
+        elif o[0] == "TR":
+            toks += ["TR", str(o[1]), L(o[2]), str(o[3])]
+        elif o[0] == "WA":
+            toks += ["WA", str(o[1]), L(o[2]), o[3], B(o[4]), B(o[5])]
+        elif o[0] == "WT":
+            toks += ["WT", str(o[1]), L(o[2]), o[3], o[4], B(o[5]), B(o[6])]
         else:
             toks += [o[0], str(o[1]), L(o[2])]
     return " ".join(toks)
@@ -305,6 +339,15 @@ def parse_case(line):
         elif k == "L":
             ops.append(("L", int(t[i + 1]), unL(t[i + 2]), t[i + 3]))
             i += 4
+        elif k == "TR":
+            ops.append(("TR", int(t[i + 1]), unL(t[i + 2]), int(t[i + 3])))
+            i += 4
+        elif k == "WA":
+            ops.append(("WA", int(t[i + 1]), unL(t[i + 2]), t[i + 3], unB(t[i + 4]), unB(t[i + 5])))
+            i += 6
+        elif k == "WT":
+            ops.append(("WT", int(t[i + 1]), unL(t[i + 2]), t[i + 3], t[i + 4], unB(t[i + 5]), unB(t[i + 6])))
+            i += 7
         else:
             ops.append((k, int(t[i + 1]), unL(t[i + 2])))
             i += 3
@@ -457,7 +500,7 @@ def check_history(c, impl_out):
         for i in range(top):
             if new[i] != snap[i]:
                 return where + ": layer %d (not the top layer) was modified" % i
-        if kind not in ("W", "C") and new[top] != snap[top]:
+        if kind not in ("W", "WA", "WT", "C") and new[top] != snap[top]:
             return where + ": a query modified the top layer"
         # the addressed location
         actual = path
@@ -498,8 +541,32 @@ def check_history(c, impl_out):
                         return where + ": unexpected result %s" % ret[:80]
                 elif ret != "ok:" + raw.hex():
                     return where + ": expected the bytes of layer %d (%s), got %s" % (holder, raw.hex()[:60], ret[:80])
-        elif kind == "W":
-            payload = bytes(o[3])
+        elif kind in ("TA", "TT", "TR"):
+            holder = None
+            for i in range(top, -1, -1):
+                if l_is_file(snap[i], comps, tr):
+                    holder = i
+                    break
+            if holder is None:
+                if ret != "err:notfound":
+                    return where + ": no layer holds the file, expected not-found, got %s" % ret[:80]
+            else:
+                raw = snap[holder]["/".join(comps)]
+                undecodable = is_compressed_name(game, path) and decode_for(fmt, raw) is None
+                if undecodable and ret.startswith("err:"):
+                    pass
+                elif kind == "TA":
+                    want = {"big": "be", "little": "le"}[SPEC_CFG[game][2]]
+                    if not (ret.startswith("ta:") and want in ret[3:].split("+")):
+                        return where + ": read_archive is not BinArchive::from_bytes(read(path), %s-endian): %s" % (SPEC_CFG[game][2], ret[:80])
+                elif kind == "TT":
+                    want = {"shiftjis": "sjis", "utf16": "utf16"}[SPEC_CFG[game][3]] + "-" + {"big": "be", "little": "le"}[SPEC_CFG[game][2]]
+                    if not (ret.startswith("tt:") and want in ret[3:].split("+")):
+                        return where + ": read_text_archive is not TextArchive::from_bytes(read(path), %s): %s" % (want, ret[:80])
+                elif ret not in ("tr:same-ok", "tr:same-err"):
+                    return where + ": typed read helper %d differs from its parser applied to read(path): %s" % (o[3], ret[:80])
+        elif kind in ("W", "WA", "WT"):
+            payload = bytes(o[3]) if kind == "W" else bytes(o[-1])
             t = snap[top]
             anc = ["/".join(comps[:k]) for k in range(1, len(comps))]
             blocked = any(t.get(a, None) is not None for a in anc)     # an ancestor is a file
@@ -645,8 +712,8 @@ def case_universe(rng, game, lang):
     return files, extra
 
 
-def build_layer(rng, files, contents, n):
-    """n entries without file/directory conflicts inside the layer"""
+def build_layer(rng, files, contents, n, stored=None, is_comp=None):
+    """n entries without file/directory conflicts inside the layer; files with a compressed name mostly hold stored forms"""
     lay = []
     kind = {}   # path -> 'f' | 'd'
     for _ in range(n):
@@ -657,7 +724,7 @@ def build_layer(rng, files, contents, n):
         pre = ["/".join(comps[:k]) for k in range(1, len(comps))]
         if any(kind.get(a) == "f" for a in pre):
             continue
-        want_dir = rng.random() < 0.3
+        want_dir = rng.random() < 0.25
         if p in kind:
             if kind[p] == "d" or want_dir:
                 continue
@@ -666,7 +733,12 @@ def build_layer(rng, files, contents, n):
         for a in pre:
             kind[a] = "d"
         kind[p] = "d" if want_dir else "f"
-        lay.append((p, None if want_dir else rng.choice(contents)))
+        if want_dir:
+            lay.append((p, None))
+        elif stored and is_comp and is_comp(p) and rng.random() < 0.75:
+            lay.append((p, rng.choice(stored)))
+        else:
+            lay.append((p, rng.choice(contents)))
     return lay
 
 
@@ -674,29 +746,91 @@ def gen_case(rng, tier, game, lang, focus, pool, codec=CODEC):
     g = GAMES[game]
     files, extra = case_universe(rng, game, lang)
     contents = list(pool)
+    stored = []
     if g in SPEC_CFG:
-        contents = contents + garbage_pool(pool, SPEC_CFG[g][0], codec)
+        fmt = SPEC_CFG[g][0]
+        contents = contents + garbage_pool(pool, fmt, codec)
+        stored = [c for c in (codec.get(fmt, "c", b) for b in pool[:16]) if isinstance(c, bytes)]
+        if focus == "c12":
+            for smp in SAMPLES.get():
+                contents.append(smp[3])
+                c = codec.get(fmt, "c", smp[3])
+                if isinstance(c, bytes):
+                    contents.append(c)
+                    stored.append(c)
     nl = rng.choice([1, 2, 2, 3, 3, 4])
-    layers = [build_layer(rng, files, contents, rng.choice([0, 1, 2, 4, 6, 9])) for _ in range(nl)]
+    is_comp = (lambda p: is_compressed_name(g, p)) if g in SPEC_CFG else None
+    layers = [build_layer(rng, files, contents, rng.choice([0, 1, 2, 4, 6, 9]), stored, is_comp) for _ in range(nl)]
     maxops = 25 if tier == "quick" else 120
     nops = rng.choice([3, 6, 10, 15, maxops, maxops]) if tier == "quick" else rng.choice([10, 25, 60, maxops])
+    samples = SAMPLES.get() if focus == "c12" else []
     if focus == "c12":
-        weights = [("W", 30), ("R", 26), ("E", 5), ("F", 5), ("G", 5), ("V", 6), ("C", 9), ("L", 9), ("S", 5)]
+        weights = [("W", 26), ("R", 26), ("E", 5), ("F", 5), ("G", 5), ("V", 6), ("C", 7), ("L", 8), ("S", 4),
+                   ("TA", 3), ("TT", 3), ("TR", 2), ("WA", 3), ("WT", 2)]
     else:
         weights = [("L", 42), ("S", 18), ("W", 14), ("C", 10), ("R", 4), ("E", 5), ("F", 2), ("G", 2), ("V", 3)]
     kinds = [k for (k, w) in weights for _ in range(w)]
     ops = []
     paths = files + extra
+    # calls that are likely to hit something: what the layers hold (files and their ancestors), addressed directly or
+    # through the path whose localisation it is; extended by every write of the history
+    present_files, present_dirs = set(), set()
+    for lay in layers:
+        for (q, content) in lay:
+            comps = q.split("/")
+            for k2 in range(1, len(comps)):
+                present_dirs.add("/".join(comps[:k2]))
+            (present_dirs if content is None else present_files).add(q)
+    hits_f = [(q, 0) for q in sorted(present_files)]
+    hits_d = [(q, 0) for q in sorted(present_dirs)] + [("", 0)]
+    if g in SPEC_CFG:
+        for u in sorted(set(files) | present_dirs):
+            lz = py_localize(g, LANGS[lang], u.rstrip("/")) if u else None
+            if lz and lz[0] == "ok":
+                t = lz[1].rstrip("/")
+                if t in present_files:
+                    hits_f.append((u, 1))
+                if t in present_dirs:
+                    hits_d.append((u, 1))
     for _ in range(nops):
         k = rng.choice(kinds)
         p = rng.choice(paths)
+        loc = 1 if rng.random() < 0.35 else 0
         if rng.random() < 0.08:
             p = rand_path(rng)
+        r = rng.random()
+        if k in ("R", "TA", "TT", "TR", "F") and hits_f and r < 0.6:
+            p, loc = rng.choice(hits_f)
+        elif k in ("L", "S", "G") and hits_d and r < 0.6:
+            p, loc = rng.choice(hits_d)
+        elif k in ("E", "V") and (hits_f or hits_d) and r < 0.5:
+            p, loc = rng.choice(hits_f + hits_d)
         if rng.random() < 0.06 and p and not p.endswith("/"):
             p += "/"
-        loc = 1 if rng.random() < 0.35 else 0
+        if k in ("WA", "WT", "TR") and not samples:
+            k = "R"
+        if k in ("W", "WA", "WT") and not p.endswith("/"):
+            hits_f.append((p, loc))
         if k == "W":
             ops.append(("W", loc, p, rng.choice(pool)))
+        elif k == "WA":
+            smp = rng.choice([x for x in samples if x[0] == "bin"])
+            ops.append(("WA", loc, p, smp[1], smp[3], smp[4]))
+        elif k == "WT":
+            smp = rng.choice([x for x in samples if x[0] == "text"])
+            ops.append(("WT", loc, p, smp[2], smp[1], smp[3], smp[4]))
+        elif k == "TR":
+            kk = rng.randrange(6)
+            if rng.random() < 0.4 and not p.endswith("/"):
+                kk = 1
+                ops.append(("W", loc, p, [x for x in samples if x[0] == "fe9arc"][0][3]))
+            ops.append(("TR", loc, p, kk))
+        elif k in ("TA", "TT"):
+            if samples and rng.random() < 0.6 and not p.endswith("/"):
+                # make the call discriminating: put a valid archive there first (any endianness / encoding)
+                smp = rng.choice([x for x in samples if x[0] == ("bin" if k == "TA" else "text")])
+                ops.append(("W", loc, p, smp[3]))
+            ops.append((k, loc, p))
         elif k == "L":
             r = rng.random()
             if r < 0.35:
@@ -722,12 +856,8 @@ def gen_cases(rng, tier, focus, n, stream):
     pool = payload_pool(rng, tier)
     out = []
     for k in range(n):
-        if tier == "quick":
-            game = SUPPORTED[k % 5]
-            lang = (k // 5 + 3 * k) % 8
-        else:
-            game = SUPPORTED[k % 5]
-            lang = (k // 5) % 8
+        game = SUPPORTED[k % 5]
+        lang = (k // 5) % 8          # every 40 consecutive cases cover all supported games x languages
         c = gen_case(rng, tier, game, lang, focus, pool)
         out.append(Case(render_case(c, fresh_base()), stream))
     # unsupported games and the empty layer list
@@ -782,3 +912,26 @@ def sweep_leftovers():
     except OSError:
         pass
     return n
+
+
+def agree(impl_out, model_out):
+    """leg K: equal, except that the harness reports the SET of codec parameters that reproduce a typed helper's
+    result (ta:be+le) where the model names the configured one (ta:be)"""
+    if impl_out == model_out:
+        return True
+    a, b = impl_out.split(" ; "), model_out.split(" ; ")
+    if len(a) != len(b):
+        return False
+    for x, y in zip(a, b):
+        if x == y:
+            continue
+        rx, _, wx = x.partition(" @ ")
+        ry, _, wy = y.partition(" @ ")
+        if wx != wy:
+            return False
+        if rx[:3] in ("ta:", "tt:") and ry[:3] == rx[:3] and ry[3:] in rx[3:].split("+"):
+            continue
+        if rx in ("tr:same-ok", "tr:same-err") and ry == "tr:same":
+            continue
+        return False
+    return True
